@@ -210,6 +210,29 @@ def asts(seed=0, known_labels=(), nseeds=2, shard=0, nshards=1):
                     fail("pickle/ast-identity", name, "the same object", dump(back), f"{name}: loads(dumps(e)) is not e (protocol {proto})",
                          {"mode": "inproc", "proto": proto})
                     break
+        # the non-AST arguments of a node (integers, floats, strings, FSort, RM) are VALUES: a pickled copy - which is what a fresh process
+        # gets when the node itself is not found in its hash-cons table - must equal the original, or the unpickled expression is not
+        # structurally equal to the natively built one (and code that compares the argument, e.g. `sort == FSORT_DOUBLE`, takes another path)
+        seen_args = set()
+        for name, e in items:
+            for node in [e, *[x for x in e.children_asts()]]:
+                for k, a_ in enumerate(node.args):
+                    if isinstance(a_, claripy.ast.Base) or (type(a_).__name__, repr(a_)) in seen_args:
+                        continue
+                    seen_args.add((type(a_).__name__, repr(a_)))
+                    evaluations += 1
+                    try:
+                        cp = pickle.loads(pickle.dumps(a_, -1))
+                        if isinstance(a_, float) and math.isnan(a_):
+                            same = type(cp) is float and math.isnan(cp)          # NaN: unequal to itself and hashed by identity, by definition
+                        else:
+                            same = type(cp) is type(a_) and cp == a_ and (getattr(a_, "__hash__", None) is None or hash(cp) == hash(a_))
+                    except Exception as ex:  # noqa: BLE001
+                        cp, same = repr(ex), False
+                    if not same:
+                        fail("pickle/ast-argument-copy-not-equal", name, repr(a_), repr(cp),
+                             f"{name}: argument {k} of a {node.op} node, {a_!r} ({type(a_).__name__}), does not equal its own pickled copy: in a fresh process the "
+                             "unpickled expression is not structurally equal to the original", {"mode": "inproc-arg", "op": node.op})
         # a list sharing sub-terms, and identity after the only reference is gone and the node rebuilt
         blob = pickle.dumps([e for _, e in items], -1)
         back = pickle.loads(blob)
